@@ -72,10 +72,46 @@ def all_strings(doc):
     return out
 
 
+def add_look_alike(ch, recipe):
+    """Give one element a next sibling that bs4 considers *equal* to it (same name, attributes, child strings) although
+    the kinds of its string children differ: text where the original has a comment / CDATA / PI and vice versa."""
+    import copy as _copy
+    holders = []
+
+    def walk(children):
+        for i, n in enumerate(children):
+            if n['k'] == 'e':
+                if any(c['k'] != 'e' for c in n['ch']):
+                    holders.append((children, i))
+                walk(n['ch'])
+    walk(recipe['top'])
+    if not holders:
+        return
+    children, i = holders[ch.i(0, len(holders) - 1)]
+    twin = _copy.deepcopy(children[i])
+
+    def swap(n):
+        for c in n['ch']:
+            if c['k'] == 'e':
+                swap(c)
+            elif c['k'] == 't':
+                if c['s'].strip() and ch.p(0.7):
+                    c['k'] = ch.pick(('c', 'c', 'cd', 'pi'))
+            elif c['k'] in ('c', 'cd', 'pi') and ch.p(0.7):
+                c['k'] = 't'
+    swap(twin)
+    if ch.p(0.5):
+        children.insert(i + 1, twin)
+    else:
+        children.insert(i, twin)
+
+
 def gen_case(ch, tier):
     recipe = trees.gen_recipe(ch, names=NAMES, string_kinds=('t', 't', 't', 'c', 'cd', 'pi', 'dt', 'decl'), texts=TEXTS,
                               max_elems=8 if tier == 'quick' else 16, attr_names=('title',), attr_values=('abc',),
                               extra_text_values=False, allow_detach=True, upper_names=False)
+    if ch.p(0.3):
+        add_look_alike(ch, recipe)
     doc = trees.materialise(recipe)
     els = doc.all_elements()
     if not els:
